@@ -434,6 +434,21 @@ impl<'a> Body<'a> {
                         }
                     }
                 }
+                if method == "unwrap_or" && m.args.len() == 1 {
+                    // R16: `O.map(|p| F).unwrap_or(D)` -> `match O { Some(p) => F, None => D }` (definition of map / unwrap_or)
+                    if let Expr::MethodCall(mp) = &*m.receiver {
+                        if mp.method == "map" && mp.args.len() == 1 {
+                            if let Expr::Closure(c) = &mp.args[0] {
+                                if c.inputs.len() == 1 && !matches!(&*mp.receiver, Expr::MethodCall(x) if x.method == "iter" || x.method == "min") {
+                                    let (o, p, f, d) = (&mp.receiver, &c.inputs[0], &c.body, &m.args[0]);
+                                    self.note("R16", "`O.map(|p| F).unwrap_or(D)` -> match".into());
+                                    *e = parse_expr(quote!(match #o { Some(#p) => #f, None => #d }));
+                                    return;
+                                }
+                            }
+                        }
+                    }
+                }
                 if self.opt("strip_refcell") && (method == "borrow_mut" || method == "borrow") && m.args.is_empty() {
                     // X.borrow_mut().m(..) -> X.m(..) : handled by replacing the call by its receiver
                     let r = (*m.receiver).clone();
@@ -441,7 +456,7 @@ impl<'a> Body<'a> {
                     *e = r;
                     return;
                 }
-                if method == "as_ref" && m.args.is_empty() && self.opt("strip_as_ref") {
+                if method == "as_ref" && m.args.is_empty() && self.opt_list("strip_as_ref").iter().any(|f| self.func.ends_with(f.as_str())) {
                     let r = (*m.receiver).clone();
                     self.note("R14", "`X.as_ref()` -> `X` (generic container instantiated)".into());
                     *e = r;
@@ -453,7 +468,7 @@ impl<'a> Body<'a> {
                 if self.opt("strip_refcell") {
                     if let Expr::Unary(u) = &*r.expr {
                         if matches!(u.op, UnOp::Deref(_)) {
-                            if is_place(&u.expr) && self.refcell_place(&u.expr) {
+                            if is_place(&u.expr) && matches!(strip_paren(&u.expr), Expr::Field(_)) && self.refcell_place(&u.expr) {
                                 let inner = (*u.expr).clone();
                                 r.expr = Box::new(inner);
                             }
@@ -592,6 +607,21 @@ impl<'a> Body<'a> {
                 }
                 vec![stmt]
             }
+            Stmt::Local(l) if as_drain_filter_map(l).is_some() => {
+                // R21: `let v2 = v.drain(..).filter_map(|m| m).collect::<Vec<_>>();` -> push the Some payloads, then v.clear()
+                let src = as_drain_filter_map(l).unwrap();
+                let pat = &l.pat;
+                let k = self.fresh();
+                let (end, i, out) = (ident(&format!("__end{k}")), ident(&format!("__i{k}")), ident(&format!("__out{k}")));
+                self.note("R21", format!("{}.drain(..).filter_map(|m| m).collect() -> loop over the Some payloads, then clear()", src.to_token_stream()));
+                parse_stmts(quote!(
+                    let mut #out = Vec::new();
+                    let #end = #src.len();
+                    for #i in 0..#end { match &#src[#i] { Some(__m) => { #out.push(__m.clone()); } None => {} } }
+                    #src.clear();
+                    let #pat = #out;
+                ))
+            }
             Stmt::Local(l) if self.outline_hit(l).is_some() => {
                 let (spec, text) = self.outline_hit(l).unwrap();
                 let mut l2 = l.clone();
@@ -612,6 +642,9 @@ impl<'a> Body<'a> {
             }
             Stmt::Expr(Expr::MethodCall(mc), Some(_)) => {
                 if let Some(v) = self.rule_extend_map(mc) {
+                    return v;
+                }
+                if let Some(v) = self.rule_or_else_chain(mc) {
                     return v;
                 }
                 if let Some(v) = self.rule_entry(mc) {
@@ -730,8 +763,17 @@ impl<'a> Body<'a> {
             }
             other => quote!(let #other = &#src[#ivar];),
         };
-        self.note("R4", format!("for {} in {} -> index loop", fl.pat.to_token_stream(), fl.expr.to_token_stream()));
         let label = &fl.label;
+        if has_continue(&fl.body) {
+            // R15: Verus `for` has no `continue`; the step moves to the loop head of a `while`
+            self.note("R15", format!("for {} in {} (body has `continue`) -> index-driven while loop", fl.pat.to_token_stream(), fl.expr.to_token_stream()));
+            return Some(parse_stmts(quote!(
+                let #end = #src.len();
+                let mut #ivar = 0;
+                #label while #ivar < #end { #bind #ivar += 1; #(#body)* }
+            )));
+        }
+        self.note("R4", format!("for {} in {} -> index loop", fl.pat.to_token_stream(), fl.expr.to_token_stream()));
         Some(parse_stmts(quote!(
             let #end = #src.len();
             #label for #ivar in 0..#end { #bind #(#body)* }
@@ -954,6 +996,92 @@ impl<'a> Body<'a> {
         )))
     }
 
+    /// R19: `None.or_else(c1).or_else(c2)...;` with every closure lifted into a function (unit file: [[lift]])
+    fn rule_or_else_chain(&mut self, mc: &ExprMethodCall) -> Option<Vec<Stmt>> {
+        // walk down the receiver chain: None.or_else(c1).or_else(c2)...
+        let mut closures: Vec<ExprClosure> = vec![];
+        let mut e: Expr = Expr::MethodCall(mc.clone());
+        loop {
+            match e {
+                Expr::MethodCall(m) if m.method == "or_else" && m.args.len() == 1 => {
+                    let Expr::Closure(c) = &m.args[0] else { return None };
+                    if !c.inputs.is_empty() {
+                        return None;
+                    }
+                    closures.push(c.clone());
+                    e = (*m.receiver).clone();
+                }
+                Expr::Path(p) if p.path.is_ident("None") => break,
+                _ => return None,
+            }
+        }
+        closures.reverse();
+        let short = self.func.rsplit("::").next().unwrap().to_string();
+        let mut ordinal = self.closure_counter;
+        let mut calls: Vec<(Ident, Expr)> = vec![];
+        let mut items: Vec<Item> = vec![];
+        for c in &closures {
+            let spec = self.unit.lift.iter().find(|l| l.func == short && l.closure == ordinal)?.clone();
+            let mut f: ItemFn = syn::parse_str(&format!("fn {}({}) -> {} {{ }}", spec.name, spec.params, spec.ret)).unwrap_or_else(|e| fail(&format!("bad lift spec {}: {e}", spec.name)));
+            let mut body: Block = match &*c.body {
+                Expr::Block(b) => b.block.clone(),
+                other => parse_quote!({ #other }),
+            };
+            struct Deref<'x>(&'x Vec<String>);
+            impl<'x> VisitMut for Deref<'x> {
+                fn visit_expr_mut(&mut self, e: &mut Expr) {
+                    if let Expr::Closure(_) = e {
+                        return;
+                    }
+                    visit_mut::visit_expr_mut(self, e);
+                    if let Expr::Assign(a) = e {
+                        if let Expr::Path(p) = &*a.left {
+                            if let Some(i) = p.path.get_ident() {
+                                if self.0.iter().any(|n| i == n) {
+                                    let l = &a.left;
+                                    a.left = Box::new(parse_expr(quote!(*#l)));
+                                }
+                            }
+                        }
+                    }
+                }
+            }
+            Deref(&spec.deref).visit_block_mut(&mut body);
+            f.block = Box::new(body);
+            items.push(Item::Fn(f));
+            let args: Expr = syn::parse_str(&format!("{}({})", spec.name, spec.args)).unwrap_or_else(|e| fail(&format!("bad lift args {}: {e}", spec.name)));
+            calls.push((ident(&spec.name), args));
+            self.note("R19", format!("closure {}#{} lifted into fn {}", short, ordinal, spec.name));
+            // ordinals of closures nested inside this one are consumed too
+            struct Cnt(usize);
+            impl VisitMut for Cnt {
+                fn visit_expr_closure_mut(&mut self, c: &mut ExprClosure) {
+                    self.0 += 1;
+                    visit_mut::visit_expr_closure_mut(self, c);
+                }
+            }
+            let mut cnt = Cnt(0);
+            let mut cc = c.clone();
+            cnt.visit_expr_mut(&mut cc.body);
+            ordinal += 1 + cnt.0;
+        }
+        self.closure_counter = ordinal;
+        self.lifted.extend(items);
+        let k0 = self.counter;
+        let mut out: Vec<Stmt> = vec![];
+        for (n, (_name, call)) in calls.iter().enumerate() {
+            let k = self.fresh();
+            let r = ident(&format!("__r{k}"));
+            if n == 0 {
+                out.extend(parse_stmts(quote!(let #r = #call;)));
+            } else {
+                let prev = ident(&format!("__r{}", k0 + n - 1));
+                out.extend(parse_stmts(quote!(let #r = if #prev.is_none() { #call } else { #prev };)));
+            }
+        }
+        Some(out)
+    }
+
     /// R6: v.extend(E.iter().map(F));
     fn rule_extend_map(&mut self, mc: &ExprMethodCall) -> Option<Vec<Stmt>> {
         if mc.method != "extend" || mc.args.len() != 1 {
@@ -980,6 +1108,45 @@ impl<'a> Body<'a> {
             for #i in 0..#end { #v.push(#f(&#s[#i])); }
         )))
     }
+}
+
+fn as_drain_filter_map(l: &Local) -> Option<Expr> {
+    let init = l.init.as_ref()?;
+    let Expr::MethodCall(col) = &*init.expr else { return None };
+    if col.method != "collect" {
+        return None;
+    }
+    let Expr::MethodCall(fm) = &*col.receiver else { return None };
+    if fm.method != "filter_map" || fm.args.len() != 1 {
+        return None;
+    }
+    let Expr::Closure(c) = &fm.args[0] else { return None };
+    // identity closure |m| m
+    if c.inputs.len() != 1 || c.inputs[0].to_token_stream().to_string() != c.body.to_token_stream().to_string() {
+        return None;
+    }
+    let Expr::MethodCall(dr) = &*fm.receiver else { return None };
+    if dr.method != "drain" {
+        return None;
+    }
+    Some((*dr.receiver).clone())
+}
+
+fn has_continue(b: &Block) -> bool {
+    struct C(bool);
+    impl VisitMut for C {
+        fn visit_expr_mut(&mut self, e: &mut Expr) {
+            match e {
+                Expr::Closure(_) | Expr::ForLoop(_) | Expr::While(_) | Expr::Loop(_) => {}
+                Expr::Continue(_) => self.0 = true,
+                _ => visit_mut::visit_expr_mut(self, e),
+            }
+        }
+    }
+    let mut c = C(false);
+    let mut b2 = b.clone();
+    c.visit_block_mut(&mut b2);
+    c.0
 }
 
 fn as_rev_range(e: &Expr) -> Option<(Expr, Expr)> {
